@@ -42,6 +42,10 @@ def all_crystals():
                 [[1 / 3, 2 / 3, .25], [2 / 3, 1 / 3, .75]]))
     L.append(_c("wurtzite-4", [[3.2, 0, 0], [-1.6, 1.6 * s3, 0], [0, 0, 5.2]], ["Zn", "Zn", "O", "O"],
                 [[1 / 3, 2 / 3, 0], [2 / 3, 1 / 3, .5], [1 / 3, 2 / 3, .382], [2 / 3, 1 / 3, .882]], polar=True))
+    # trigonal P3 in hexagonal axes: three symmetry-equivalent atoms on a general position (site symmetry 1) + one on the axis
+    x_, y_, z_ = 0.31, 0.12, 0.4
+    L.append(_c("trig-P3-4", [[4.5, 0, 0], [-2.25, 2.25 * s3, 0], [0, 0, 5.1]], ["Ti", "O", "O", "O"],
+                [[0, 0, 0.1], [x_, y_, z_], [-y_, x_ - y_, z_], [-x_ + y_, -x_, z_]], polar=True))
     # rhombohedral: primitive with angle != 60,90,109.47
     ar, al = 3.5, np.deg2rad(75.0)
     ca = np.cos(al)
